@@ -210,6 +210,16 @@ def _delete_marked_files(it, delete_list):
     if isinstance(delete_list, VNone):
         raise_("ValueError")
     for p in it.lib.iter_concrete(it, delete_list):
+        if isinstance(p, VSymSeq) and p.what == "markedmeta":
+            # the marked entries of one metadata directory, collected by a directory loop
+            d, fs_entry = p.info["d"], p.info["fs"]
+            fs = it.ctx.st.fs
+            x = z3.Const("x!mm", T.Loc)
+            src = T.mkloc(z3.IntVal(T.K_META), d, T.l_k2(x), z3.IntVal(0))
+            it.ctx.st.fs = z3.Lambda([x], z3.If(
+                z3.And(T.l_kind(x) == T.K_META, T.l_k1(x) == d, T.l_marks(x) == 1,
+                       T.present(z3.Select(fs_entry, src))), T.Absent, z3.Select(fs, x)))
+            continue
         l = loc_of(it, p)
         if it.ctx.branch(T.present(fsget(it, l))):
             fsput(it, l, T.Absent)
@@ -270,9 +280,9 @@ def _mktmpfile(it, self, path):
           cases={"pid": lambda it: [make_self(it), VPath(A_REFS_TMP), sym_str("ref_id"), VStr("pid")],
                  "cid": lambda it: [make_self(it), VPath(A_REFS_TMP), sym_str("ref_id"), VStr("cid")]},
           pre=lambda it, self, path, ref_id, ref_type: [
-              ("ref-type-known", z3.Or(ref_type.term == z3.StringVal("pid"),
-                                       ref_type.term == z3.StringVal("cid"))),
-              ("line-wsfree", z3.Implies(ref_type.term == z3.StringVal("cid"),
+              ("ref-type-known", z3.Or(str_of(it, ref_type) == z3.StringVal("pid"),
+                                       str_of(it, ref_type) == z3.StringVal("cid"))),
+              ("line-wsfree", z3.Implies(str_of(it, ref_type) == z3.StringVal("cid"),
                                          T.wsfree(str_of(it, ref_id))))],
           compare=("outcome", "result", "fs", "locks", "self"),
           props={"*": ("C05", "C09", "C15", "C03")})
@@ -285,7 +295,7 @@ def _write_refs_file(it, self, path, ref_id, ref_type):
     name = T.fresh_tmp(st.fs, z3.IntVal(T.K_TMP_REFS))
     loc = T.loc(T.K_TMP_REFS, name)
     r = str_of(it, ref_id)
-    if it.ctx.branch(ref_type.term == z3.StringVal("cid")):
+    if it.ctx.branch(str_of(it, ref_type) == z3.StringVal("cid")):
         fsput(it, loc, T.LinesF(z3.Store(T.NOLINES, r, z3.IntVal(1))))
     else:
         fsput(it, loc, T.Data(r))
@@ -297,7 +307,7 @@ def _write_refs_file(it, self, path, ref_id, ref_type):
                  "remove": lambda it: [make_self(it), _cidrefs_path(it), sym_str("ref_id"),
                                        VStr("remove")]},
           pre=lambda it, self, refs_file_path, ref_id, update_type: [
-              ("ref-id-wsfree", T.wsfree(ref_id.term))],
+              ("ref-id-wsfree", T.wsfree(str_of(it, ref_id)))],
           props={"*": ("C03", "C04", "C05", "C18")})
 def _update_refs_file(it, self, refs_file_path, ref_id, update_type):
     l = loc_of(it, refs_file_path)
@@ -306,7 +316,7 @@ def _update_refs_file(it, self, refs_file_path, ref_id, update_type):
         raise_("FileNotFoundError")
     r = str_of(it, ref_id)
     m = T.as_lines(st)
-    ut = update_type.term
+    ut = str_of(it, update_type)
     if it.ctx.branch(ut == z3.StringVal("add")):
         if it.ctx.branch(z3.Select(m, r) > 0):
             return NONE
